@@ -22,6 +22,7 @@ MC_CFG = """CONSTANTS
 SPECIFICATION Spec
 INVARIANT Refines
 INVARIANT Observers
+INVARIANT FoldFastAgrees
 INVARIANT Laws
 INVARIANT Structure
 PROPERTY NoWrite
@@ -53,11 +54,15 @@ def script_text(hist):
     out = []
     for o in hist:
         if o["op"] == "new":
-            out.append("r%d=New(%s)" % (o["i"] - 1, ",".join(map(str, o["xs"]))))
+            xs = o["xs"]
+            arg = ",".join(map(str, xs)) if len(xs) <= 8 else "%d,%d,...,%d [%d elements]" % (xs[0], xs[1], xs[-1], len(xs))
+            out.append("r%d=New(%s)" % (o["i"] - 1, arg))
         elif o["op"] == "cons":
             out.append("r%d=Cons(%d,r%d)" % (o["i"] - 1, o["x"], o["j"] - 1))
         else:
             out.append("r%d=Tail(r%d)" % (o["i"] - 1, o["j"] - 1))
+    if len(out) > 14:
+        out = out[:6] + ["... %d steps ..." % (len(out) - 12)] + out[-6:]
     return "; ".join(out)
 
 
@@ -96,7 +101,15 @@ def check(run, replay=None):
             cs = cases[len(cases) // 2]
             run.sample({"script": script_text(cs["hist"]), "expected_registers": cs["hist"][-1]["after"]})
             del cases
-        # ---- 3. random longer scripts, judged by TLC
+        # ---- 3. long scripts around size thresholds (New of 0..1000 distinct elements, Cons chains of 34 / 70, Tail walks
+        #         across the boundaries), recorded from the real traits, judged by the same trace spec
+        traces = record_long(binp, d, seed=run.seed, maxn=1000)
+        judge_traces(run, traces, d, "long")
+        run.notes["long_scripts"] = len(traces)
+        run.notes["long_script_steps"] = sum(len(t["steps"]) for t in traces)
+        run.notes["long_script_observed_steps"] = sum(1 for t in traces for st in t["steps"] if st["obs"])
+        run.notes["longest_sequence_observed"] = max(len(r["elems"]) for t in traces for st in t["steps"] for o in st["obs"] for r in o["regs"])
+        # ---- 4. random longer scripts, judged by TLC
         for b in range(4 if thorough else 1):
             traces = record_random(binp, d, "rnd%d" % b, seed=run.seed * 100 + b, n=30 if thorough else 12, ops=120 if thorough else 40)
             judge_traces(run, traces, d, "rnd%d" % b)
@@ -147,6 +160,19 @@ def record_random(binp, d, tag, seed, n, ops):
     return traces
 
 
+def record_long(binp, d, seed, maxn):
+    outp = os.path.join(d, "traces_long.jsonl")
+    p = common.run_bin(binp, ["-test.run", "TestLong"], env=dict(VERIF_MODE="long", VERIF_SEED=seed, VERIF_MAXN=maxn, VERIF_OUT=outp))
+    if p.returncode != 0:
+        raise Infra("seqadtdrv long failed:\n" + (p.stdout + p.stderr)[-3000:])
+    recs = [json.loads(l) for l in open(outp) if l.strip()]
+    stats = [x for x in recs if x.get("t") == "stats"]
+    traces = [x for x in recs if x.get("t") != "stats"]
+    if not stats or stats[0]["traces"] != len(traces) or not traces:
+        raise Infra("seqadtdrv long wrote an incomplete result file")
+    return traces
+
+
 def judge_traces(run, traces, d, tag):
     tf = os.path.join(d, "batch_%s.json" % tag)
     with open(tf, "w") as f:
@@ -178,8 +204,9 @@ def judge_traces(run, traces, d, tag):
                 ob = last["obs"][c - 1]
                 run.violation({"kind": pred, "impl": impl.split("/")[0]},
                               "%s: after %s register r%d: %s (observed %s)" % (impl, script_text(steps), reg - 1, WHAT.get(pred, pred),
-                                                                              json.dumps(ob["regs"][reg - 1] if ob["regs"] else ob["panic"])),
-                              {"mode": "trace", "hist": [{k: s[k] for k in ("op", "i", "j", "x", "xs")} for s in steps],
+                                                                              json.dumps(ob["regs"][reg - 1] if ob["regs"] else ob["panic"])[:400]),
+                              {"mode": "trace", "hist": [dict({k: s[k] for k in ("op", "i", "j", "x", "xs")}, quiet=not s["obs"]) for s in steps[:-1]]
+                                                        + [{k: last[k] for k in ("op", "i", "j", "x", "xs")}],
                                "finding": {"impl": impl, "reg": reg, "pred": pred}})
         elif v.get("t") == "DRIFT":
             t = traces[v["ti"] - 1]
@@ -190,14 +217,16 @@ def judge_traces(run, traces, d, tag):
     run.traces += len(traces)
     run.add_mc("SeqADTTrace", r, {"traces": len(traces), "steps": sum(len(t["steps"]) for t in traces)})
     t = traces[0]
-    run.sample({"random_script": script_text(t["steps"][:6]), "observed_after": [o["elems"] for o in t["steps"][min(5, len(t["steps"]) - 1)]["obs"][0]["regs"]]})
+    seen = [st for st in t["steps"][:6] if st["obs"] and st["obs"][0]["regs"]]
+    if seen:
+        run.sample({"recorded_script": script_text(t["steps"][:6]), "observed": [o["elems"][:12] for o in seen[-1]["obs"][0]["regs"]]})
 
 
 def do_replay(run, binp, path, d):
     """Re-executes the stored script on the current tree; the expected registers are recomputed by TLC (SeqADTTrace
     judges the new recording), nothing of the stored observation is reused."""
     pl = json.load(open(path))["payload"]
-    hist = [{k: o[k] for k in ("op", "i", "j", "x", "xs")} for o in pl["hist"]]
+    hist = [{k: o[k] for k in ("op", "i", "j", "x", "xs", "quiet") if k in o} for o in pl["hist"]]
     inp, outp = os.path.join(d, "script.json"), os.path.join(d, "trace.jsonl")
     with open(inp, "w") as f:
         json.dump(hist, f)
